@@ -24,6 +24,15 @@ Proof.
 Qed.
 End DwfFacts.
 
+Lemma dwf_weaken_op {D} (okop okop' : dbop -> Prop) (okvar : nat -> str -> Prop) (okvars : list str -> Prop) :
+  (forall o, okop o -> okop' o) -> forall e : deepex D, dwf okop okvar okvars e -> dwf okop' okvar okvars e.
+Proof.
+  intros H1. induction e as [nodes bops uop vars IH] using deep_ind. intros Hwf.
+  rewrite dwf_unfold in Hwf. destruct Hwf as (Hl & Hv & Hf & Hn). rewrite dwf_unfold.
+  split; [exact Hl|]. split; [exact Hv|]. split; [intros o Ho; apply H1; apply Hf; exact Ho|].
+  rewrite Forall_forall in *. intros n Hin. specialize (Hn n Hin). destruct n as [e'|d|i x]; cbn [nwf] in *; auto.
+Qed.
+
 Section DeepSubs.
 Context {D : Type}.
 Variable C : carrier D.
